@@ -659,6 +659,45 @@ func (x *gen) directedSelfAck() {
 		c.exec("unblock")
 	}
 	c.exec("flush 6")
+	x.stalledFollowerAck()
+}
+
+// stalledFollowerAck (asynchronous storage writes): a follower has handed entries to its append
+// thread, which does not run; heartbeats and the empty appends that follow them go back and forth.
+// The follower must not acknowledge those entries before they are written, and the leader must not
+// commit them on the strength of such an acknowledgement.
+func (x *gen) stalledFollowerAck() {
+	c := x.c
+	l := x.leader()
+	if l == nil || !c.base.Async || len(c.alive()) != 3 {
+		return
+	}
+	rest := x.others(l.id)
+	f, third := rest[0], rest[1]
+	c.exec(fmt.Sprintf("block %d %d", l.id, third.id))
+	c.exec(fmt.Sprintf("block %d %d", f.id, third.id))
+	x.net0()
+	c.exec(fmt.Sprintf("propose %d", l.id))
+	c.exec(fmt.Sprintf("process %d", l.id))
+	x.deliverAll()
+	c.exec(fmt.Sprintf("sub %d", f.id)) // the write is queued, not executed
+	for r := 0; r < 3 && !c.stopped; r++ {
+		for t := 0; t < l.cfg.HB; t++ {
+			c.exec(fmt.Sprintf("tick %d", l.id))
+		}
+		c.exec(fmt.Sprintf("process %d", l.id))
+		x.deliverAll()
+		c.exec(fmt.Sprintf("sub %d", f.id))
+		x.deliverAll()
+		c.exec(fmt.Sprintf("process %d", l.id))
+		x.deliverAll()
+		c.exec(fmt.Sprintf("sub %d", f.id))
+		x.deliverAll()
+	}
+	c.exec(fmt.Sprintf("process %d", l.id))
+	c.exec(fmt.Sprintf("appendthread %d", f.id))
+	c.exec("unblock")
+	c.exec("flush 6")
 }
 
 // directedOddCalls: API calls in states where they must be refused or ignored: Campaign at a node
